@@ -406,6 +406,9 @@ func genBlock(rng *RNG, depth int) string {
 		return indent(genBlocks(rng, depth-1, 1), "- [ ] ", "  ") + indent(genInline(rng)+"\n", "- [x] ", "  ")
 	case 12:
 		return []string{"<div>\n*a*\n</div>\n", "<!-- c\nd -->\n", "<?php\n?>\n", "<script>\nx\n</script>\n", "<![CDATA[\nx\n]]>\n", "<!X\n>\n", "<div class=\"a\">\n\nb\n\n</div>\n", "<p\nx=\"\x00\">\n"}[rng.Intn(8)]
+	case 18:
+		// a definition and shortcut / collapsed / full references whose label spans lines
+		return "[foo bar]: /multi \"t\"\n\n[foo\nbar] and [foo\n  bar][] and [x][foo\nbar] ![foo\nbar]\n"
 	case 13:
 		return "[r]: /ref " + []string{"", "\"t\"", "'t&amp;'", "(t)"}[rng.Intn(4)] + "\n"
 	case 14:
